@@ -77,4 +77,264 @@ theorem downstream_sim (ops : Ops σ S C) (ns : Nat) (ctr : σ → Nat)
         · exact hfoot t (hL.refs_sub st₁ s r t (Or.inl hr)) ht
         · exact hT.nokeep st₁ s r hacc hrb hcells t ht hr
 
+/-! ## the modelled accumulators keep their books (`Tidy`) -/
+
+theorem curTok_tok (ns : Nat) (w : PW) (s : AccSt) :
+    (((curTok ns s).run w).2 ∈ s.refs ∧ ((curTok ns s).run w).1.ctr = w.ctr) ∨
+    (((curTok ns s).run w).2 = (ns, w.ctr) ∧ ((curTok ns s).run w).1.ctr = w.ctr + 1) := by
+  unfold curTok
+  cases h : s.cur with
+  | some c => left; simp [AccSt.refs, h]
+  | none => right; simp
+
+theorem getCtx_tok (ns : Nat) (w : PW) (x : HItem) :
+    (((getCtx ns x).run w).2 ∈ x.cells ∧ ((getCtx ns x).run w).1.ctr = w.ctr) ∨
+    (((getCtx ns x).run w).2 = (ns, w.ctr) ∧ ((getCtx ns x).run w).1.ctr = w.ctr + 1) := by
+  unfold getCtx
+  cases h : x.ctxTok with
+  | some c => left; simp; exact ctxTok_mem h
+  | none => right; simp
+
+theorem yieldCounts_ctr (ns : Nat) (c : Tok) (count : Nat) (names : List String) (w : PW) :
+    ((yieldCounts ns c count names).run w).1.ctr = w.ctr + names.length := (yieldCounts_spec ns c count names w).1
+
+theorem yieldCopies_ctr_vec (ns : Nat) (c : Tok) (d : Value) (k : Nat) (w : PW) :
+    ((yieldCopies ns c (maybeWithContext d) k).run w).1.ctr = w.ctr + k :=
+  (yieldCopies_spec ns c _ (fun t w => maybeWithContext_run _ t w) k w).1
+
+theorem yieldCopies_ctr_hist (ns : Nat) (c : Tok) (d : Value) (k : Nat) (w : PW) :
+    ((yieldCopies ns c (fun t => (pure (mkItem d (some t)) : M HItem)) k).run w).1.ctr = w.ctr + k :=
+  (yieldCopies_spec ns c _ (fun t w => by simp [mkItem]) k w).1
+
+/-- the state after `compute()` is the old one, possibly with `_cur_context` made explicit -/
+theorem accCompute_state (ns : Nat) (k : AccKind) (hk : k.fresh = true) (w : PW) (s : AccSt) :
+    ((accCompute ns k s).run w).2.1 = s ∨
+    (((accCompute ns k s).run w).2.1 = { s with cur := some ((curTok ns s).run w).2 } ∧
+      ((curTok ns s).run w).1.ctr ≤ ((accCompute ns k s).run w).1.ctr) := by
+  cases k <;> simp [AccKind.fresh] at hk <;>
+    simp only [accCompute, M.bind_run, M.pure_run, M.ite_run, maybeWithContext, readM_run] <;>
+    (repeat' split) <;> simp [yieldCounts_ctr, yieldCopies_ctr_vec, yieldCopies_ctr_hist] <;> (try (right; omega)) <;>
+    (try omega)
+
+/-- everything `compute()` yields was allocated after `_cur_context` was looked at -/
+theorem accCompute_sharp (ns : Nat) (k : AccKind) (hk : k.fresh = true) (w : PW) (s : AccSt) :
+    ∀ t ∈ cellsOf ((accCompute ns k s).run w).2.2.outs, ((curTok ns s).run w).1.ctr ≤ t.2 := by
+  cases k with
+  | store => simp [AccKind.fresh] at hk
+  | keepLast => simp [AccKind.fresh] at hk
+  | reqStore => simp [AccKind.fresh] at hk
+  | storeGroup => simp [AccKind.fresh] at hk
+  | groupBy key => simp [AccKind.fresh] at hk
+  | graph =>
+    simp only [accCompute, M.bind_run, M.pure_run, copyM_run, updM_run, M.ite_run]
+    simp [mkItem, cellsOf]
+  | vecMulti k =>
+    simp only [accCompute, M.ite_run]
+    split
+    · simp [cellsOf]
+    · simp only [M.bind_run, M.pure_run]
+      generalize (curTok ns s).run w = r0
+      obtain ⟨_, y2, _⟩ := yieldCopies_spec ns r0.2 (maybeWithContext (.str "vec"))
+        (fun d w => maybeWithContext_run _ d w) k r0.1
+      exact fun t ht => (y2 t ht).2.1
+  | sibMulti var lo hi k =>
+    simp only [accCompute, M.bind_run, M.pure_run]
+    generalize (curTok ns s).run w = r0
+    have u1 := updM_fst_ctr r0.2 (setVariable var) r0.1
+    generalize ((updM r0.2 (setVariable var)).run r0.1).1 = w1 at u1
+    obtain ⟨_, y2, _⟩ := yieldCopies_spec ns r0.2 (fun d => pure (mkItem (.str "hist") (some d)))
+      (fun d w => by simp [mkItem]) k w1
+    intro t ht
+    have := (y2 t ht).2.1
+    omega
+  | meanCounts names =>
+    simp only [accCompute, M.ite_run]
+    split
+    · simp [cellsOf]
+    · simp only [M.bind_run, M.pure_run]
+      generalize (curTok ns s).run w = r0
+      obtain ⟨c1, c2⟩ := copyM_fst_ctr ns r0.2 r0.1
+      rw [c2]
+      generalize ((copyM ns r0.2).run r0.1).1 = w1 at c1
+      obtain ⟨m1, m2⟩ := maybeWithContext_run (.quot s.total s.count) (ns, r0.1.ctr) w1
+      rw [m1]
+      obtain ⟨_, y2, _⟩ := yieldCounts_spec ns r0.2 s.count names w1
+      intro t ht
+      rw [cellsOf_cons] at ht
+      rcases List.mem_append.mp ht with ht | ht
+      · rcases m2 with m2 | m2
+        · rw [m2] at ht; simp at ht
+        · rw [m2] at ht; simp at ht; subst ht; exact Nat.le_refl _
+      · have := (y2 t ht).2.1
+        omega
+  | vecList =>
+    simp only [accCompute, maybeWithContext, M.ite_run]
+    split
+    · simp [cellsOf]
+    · simp only [M.bind_run, M.pure_run, copyM_run, readM_run]
+      split <;> simp [mkItem, cellsOf]
+  | sum =>
+    simp only [accCompute, M.bind_run, readM_run]
+    split <;> simp [mkItem, cellsOf]
+  | dsum =>
+    simp only [accCompute, M.bind_run, readM_run]
+    split <;> simp [mkItem, cellsOf]
+  | reqSum => simp [accCompute, mkItem, cellsOf]
+  | count name => simp [accCompute, mkItem, cellsOf]
+  | histogram => simp [accCompute, mkItem, cellsOf]
+  | sib var lo hi => simp [accCompute, mkItem, cellsOf]
+  | vectorize dim =>
+    simp only [accCompute, maybeWithContext, M.bind_run, M.pure_run, copyM_run, readM_run]
+    split <;> simp [mkItem, cellsOf]
+  | vmc corrected poe =>
+    simp only [accCompute, maybeWithContext, M.ite_run]
+    split
+    · split <;> simp [cellsOf]
+    · split
+      · simp [cellsOf]
+      · simp only [M.bind_run, M.pure_run, copyM_run, readM_run]
+        split <;> simp [mkItem, cellsOf]
+  | mean sumSeq poe =>
+    simp only [accCompute, maybeWithContext, M.ite_run]
+    split
+    · split <;> simp [cellsOf]
+    · rcases sumSeq with _ | _ | _ | name
+      · simp only [M.bind_run, M.pure_run, copyM_run, readM_run]
+        split <;> simp [mkItem, cellsOf]
+      · simp only [M.bind_run, M.pure_run, copyM_run, readM_run]
+        split <;> simp [mkItem, cellsOf]
+      · simp only [M.bind_run, M.pure_run, copyM_run, readM_run]
+        split <;> simp [mkItem, cellsOf]
+      · simp only [M.bind_run, M.pure_run, copyM_run, readM_run, updM_run]
+        split <;> simp [mkItem, cellsOf]
+
+
+/-- the state after `fill(value)`: the stored values are untouched; `_cur_context` is the old one, the context
+object of the value, or (SplitIntoBins) a new copy of it -/
+theorem accFill_state (ns : Nat) (k : AccKind) (hk : k.fresh = true) (w : PW) (s : AccSt) (x : HItem) :
+    ((accFill ns k s x).run w).2.group = s.group ∧ ((accFill ns k s x).run w).2.groups = s.groups ∧
+    (((accFill ns k s x).run w).2.cur = s.cur ∨
+     ((accFill ns k s x).run w).2.cur = some ((getCtx ns x).run w).2 ∨
+     (((accFill ns k s x).run w).2.cur = some (ns, ((getCtx ns x).run w).1.ctr) ∧
+       ((accFill ns k s x).run w).1.ctr = ((getCtx ns x).run w).1.ctr + 1)) ∧
+    ((getCtx ns x).run w).1.ctr ≤ ((accFill ns k s x).run w).1.ctr := by
+  cases k <;> simp [AccKind.fresh] at hk <;>
+    simp only [accFill, M.bind_run, M.pure_run, M.ite_run, copyM_run] <;>
+    (repeat' split) <;> simp
+
+/-- after `compute()` the state refers to what it referred to before, or to an allocated object -/
+theorem accCompute_refs (ns : Nat) (k : AccKind) (hk : k.fresh = true) (w : PW) (s : AccSt) :
+    ∀ t ∈ ((accCompute ns k s).run w).2.1.refs, t ∈ s.refs ∨ (t.1 = ns ∧ t.2 < ((accCompute ns k s).run w).1.ctr) := by
+  intro t ht
+  rcases accCompute_state ns k hk w s with e | ⟨e, hge⟩
+  · rw [e] at ht; exact Or.inl ht
+  · rw [e] at ht
+    simp only [AccSt.refs, List.mem_append, Option.mem_toList, Option.some.injEq] at ht
+    rcases ht with (ht | ht) | ht
+    · subst ht
+      rcases curTok_tok ns w s with ⟨h1, _⟩ | ⟨h1, h2⟩
+      · exact Or.inl h1
+      · rw [h1]; exact Or.inr ⟨rfl, by simp only; omega⟩
+    · exact Or.inl (by simp only [AccSt.refs, List.mem_append]; exact Or.inl (Or.inr ht))
+    · exact Or.inl (by simp only [AccSt.refs, List.mem_append]; exact Or.inr ht)
+
+/-- **`compute()` keeps no reference to what it yields** -/
+theorem accCompute_nokeep (ns : Nat) (k : AccKind) (hk : k.fresh = true) (w : PW) (s : AccSt)
+    (hrb : ∀ t ∈ s.refs, t.1 = ns → t.2 < w.ctr) :
+    ∀ t ∈ cellsOf ((accCompute ns k s).run w).2.2.outs, t ∉ ((accCompute ns k s).run w).2.1.refs := by
+  intro t ht hr
+  have hfr := (accCompute_fresh ns k hk w s).2.1 t ht
+  have hsh := accCompute_sharp ns k hk w s t ht
+  have hcur := (curTok_spec ns w s).1
+  have hold : t ∉ s.refs := fun h => by have := hrb t h hfr.1; omega
+  rcases accCompute_state ns k hk w s with e | ⟨e, _⟩
+  · rw [e] at hr; exact hold hr
+  · rw [e] at hr
+    simp only [AccSt.refs, List.mem_append, Option.mem_toList, Option.some.injEq] at hr
+    rcases hr with (hr | hr) | hr
+    · subst hr
+      rcases curTok_tok ns w s with ⟨h1, _⟩ | ⟨h1, h2⟩
+      · exact hold h1
+      · rw [h1] at hsh; simp only at hsh; omega
+    · exact hold (by simp only [AccSt.refs, List.mem_append]; exact Or.inl (Or.inr hr))
+    · exact hold (by simp only [AccSt.refs, List.mem_append]; exact Or.inr hr)
+
+/-- **the modelled framework accumulators keep their books**: they refer only to allocated objects, and keep no
+reference to a context they yield -/
+theorem accOps_tidy (ns : Nat) (k : AccKind) (hk : k.fresh = true) :
+    Tidy (accOps ns k) ns (fun s : HSt => s.ctr) := by
+  have hfill : ∀ st (s : HSt) (x : HItem),
+      ((accOps ns k).act st s (.fill x)).2.1.acc = ((accFill ns k s.acc x).run ⟨st, s.ctr⟩).2 ∧
+      ((accOps ns k).act st s (.fill x)).2.1.ctr = ((accFill ns k s.acc x).run ⟨st, s.ctr⟩).1.ctr ∧
+      ((accOps ns k).act st s (.fill x)).2.2.outs = [] := by
+    intro st s x
+    simp [accOps, hOps, hAct, hActM, applySteps]
+  have hcomp : ∀ st (s : HSt) (r : Req Skel), (r = .compute ∨ r = .request) →
+      ((accOps ns k).act st s r).2.1.acc = ((accCompute ns k s.acc).run ⟨st, s.ctr⟩).2.1 ∧
+      ((accOps ns k).act st s r).2.1.ctr = ((accCompute ns k s.acc).run ⟨st, s.ctr⟩).1.ctr ∧
+      ((accOps ns k).act st s r).2.2.outs = ((accCompute ns k s.acc).run ⟨st, s.ctr⟩).2.2.outs := by
+    intro st s r hr
+    rcases hr with rfl | rfl <;> simp [accOps, hOps, hAct, hActM]
+  -- the references after `fill`
+  have fillrefs : ∀ st (s : HSt) (x : HItem), ∀ t ∈ ((accOps ns k).act st s (.fill x)).2.1.acc.refs,
+      t ∈ s.acc.refs ∨ t ∈ x.cells ∨ (t.1 = ns ∧ t.2 < ((accOps ns k).act st s (.fill x)).2.1.ctr) := by
+    intro st s x t ht
+    obtain ⟨f1, f2, _⟩ := hfill st s x
+    obtain ⟨g1, g2, g3, g4⟩ := accFill_state ns k hk ⟨st, s.ctr⟩ s.acc x
+    rw [f1] at ht
+    rw [f2]
+    simp only [AccSt.refs, List.mem_append, Option.mem_toList] at ht ⊢
+    rcases ht with (ht | ht) | ht
+    · rcases g3 with g3 | g3 | ⟨g3, g5⟩
+      · rw [g3] at ht; exact Or.inl (Or.inl (Or.inl ht))
+      · rw [g3] at ht
+        simp only [Option.some.injEq] at ht
+        subst ht
+        rcases getCtx_tok ns ⟨st, s.ctr⟩ x with ⟨h1, _⟩ | ⟨h1, h2⟩
+        · exact Or.inr (Or.inl h1)
+        · rw [h1]; exact Or.inr (Or.inr ⟨rfl, by simp only at h2 ⊢; omega⟩)
+      · rw [g3] at ht
+        simp only [Option.some.injEq] at ht
+        subst ht
+        exact Or.inr (Or.inr ⟨rfl, by simp only; omega⟩)
+    · rw [g1] at ht; exact Or.inl (Or.inl (Or.inr ht))
+    · rw [g2] at ht; exact Or.inl (Or.inr ht)
+  have compfacts : ∀ st (s : HSt) (r : Req Skel), (r = .compute ∨ r = .request) →
+      (∀ t ∈ ((accOps ns k).act st s r).2.1.acc.refs,
+        t ∈ s.acc.refs ∨ (t.1 = ns ∧ t.2 < ((accOps ns k).act st s r).2.1.ctr)) ∧
+      ((∀ t ∈ s.acc.refs, t.1 = ns → t.2 < s.ctr) →
+        ∀ t ∈ cellsOf ((accOps ns k).act st s r).2.2.outs, t ∉ ((accOps ns k).act st s r).2.1.acc.refs) := by
+    intro st s r hr
+    obtain ⟨c1, c2, c3⟩ := hcomp st s r hr
+    rw [c1, c2, c3]
+    exact ⟨accCompute_refs ns k hk ⟨st, s.ctr⟩ s.acc, accCompute_nokeep ns k hk ⟨st, s.ctr⟩ s.acc⟩
+  refine ⟨?_, ?_⟩
+  · -- below
+    intro st s r hacc hrb hcells t ht hns
+    have hmono := (accOps_freshYield' ns k hk).mono st s r
+    cases r with
+    | fill x =>
+      rcases fillrefs st s x t ht with h | h | h
+      · exact Nat.lt_of_lt_of_le (hrb t h hns) hmono
+      · exact Nat.lt_of_lt_of_le (hcells t h hns) hmono
+      · exact h.2
+    | compute =>
+      rcases (compfacts st s .compute (Or.inl rfl)).1 t ht with h | h
+      · exact Nat.lt_of_lt_of_le (hrb t h hns) hmono
+      · exact h.2
+    | request =>
+      rcases (compfacts st s .request (Or.inr rfl)).1 t ht with h | h
+      · exact Nat.lt_of_lt_of_le (hrb t h hns) hmono
+      · exact h.2
+    | call => simp [Req.isAcc] at hacc
+    | run buf => simp [Req.isAcc] at hacc
+  · -- nokeep
+    intro st s r hacc hrb hcells t ht
+    cases r with
+    | fill x => rw [(hfill st s x).2.2] at ht; simp [cellsOf] at ht
+    | compute => exact (compfacts st s .compute (Or.inl rfl)).2 hrb t ht
+    | request => exact (compfacts st s .request (Or.inr rfl)).2 hrb t ht
+    | call => simp [Req.isAcc] at hacc
+    | run buf => simp [Req.isAcc] at hacc
+
 end Lena.C04
